@@ -1,1 +1,2 @@
 import OidcModel.Proofs.C01
+import OidcModel.Proofs.C02
